@@ -76,3 +76,34 @@ pub(crate) fn me() -> String {
 pub(crate) fn key(k: crate::DatabaseKeyIndex) -> String {
     format!("{}:{:#x}", k.ingredient_index().as_u32(), k.key_index().as_bits())
 }
+
+// ---------------------------------------------------------------------------------------------
+// Memo bookkeeping (read-only)
+
+/// What a tracked function's memo currently records (keys are rendered with `Debug`, which
+/// resolves ingredient names when a database is attached).
+#[derive(Clone, Debug, PartialEq, Eq)]
+pub struct MemoSummary {
+    pub has_value: bool,
+    /// the memo is not (or no longer) provisional
+    pub verified_final: bool,
+    pub verified_at: usize,
+    pub changed_at: usize,
+    pub durability: u8,
+    pub untracked: bool,
+    /// cycle heads recorded by the memo (kept after finalization)
+    pub cycle_heads: Vec<String>,
+    /// recorded input edges, in execution order
+    pub inputs: Vec<String>,
+}
+
+/// Summary of the memo stored for `key` by the tracked function whose debug name is
+/// `function`, if there is one.
+pub fn memo_summary(db: &dyn crate::Database, function: &str, key: crate::Id) -> Option<MemoSummary> {
+    let zalsa = db.zalsa();
+    let ingredient = zalsa
+        .ingredients()
+        .find(|ingredient| ingredient.as_function().is_some() && ingredient.debug_name() == function)?;
+    let memo = ingredient.as_function()?.memo(zalsa, key)?;
+    Some(crate::attach::attach(db, || memo.verif_summary()))
+}
